@@ -48,4 +48,17 @@ PROPS = {
         "rule": "rapid draws p in 0..128 (weighted to 0,1,63,64,65,127,128), a base of two 64-bit halves from {0, ~0, 1, 2^k, 2^k-1, ~0<<k, random} masked to /p, x = base + delta (0, 1, block-1, block, m*block+-1, up to the all-ones address) and n from {0..2, 2^p+-1, blocks-to-end+-1, half patterns}; Offset (both argument orders) and AddPrefixes are compared with math/big, plus the inverse law. Non-trivial: borrow or carry across the 64-bit halves, an expected overflow, or p in 63..65. Distinct: FNV-64 of the case JSON.",
         "assumptions": ["base is aligned to /p and x >= base, as the property's quantifier states; both are 16-byte addresses"],
     },
+    "C08": {
+        "engine": "pd6",
+        "tests": [{"name": "TestC08", "quick": {"checks": 4000, "shards": 2}, "thorough": {"checks": 30000, "shards": 16}}],
+        "rule": "rapid draws an IPv6 pool (/32../120, 1..64 [thorough ..1024] blocks), 1..4 clients (DUID-LL/LLT/EN/UUID/opaque, distinct raw ids) and a history of 1..12 [thorough ..30] messages of every supported type, direct or relayed (depth 1..2), each with 0..3 IA_PD carrying 0..3 IAPrefix hints (none, wire length 0, length-only, free block, held by self, held by another client, any block, out of pool, longer/shorter than the page, length > 128), optionally followed by a concurrent phase (2..6 goroutines). Requests are built as wire bytes and parsed by the library; every reply is checked by a validity predicate (IA_PD correspondence, in pool, aligned, page <= length <= 128, 0 < preferred <= valid <= 3600 s, NoPrefixAvail when empty) and an owner table block -> client. Non-trivial: >= 2 clients hold a prefix, or NoPrefixAvail was seen, or a hint named a block held by another client, or a concurrent phase ran. Distinct: FNV-64 of the case JSON.",
+        "assumptions": ["pools are IPv6 CIDRs as the plugin documents", "which free block a new delegation gets is not asserted", "the response stub is built as server.HandleMsg6 builds it"],
+    },
+    "C09": {
+        "engine": "pd6",
+        "tests": [{"name": "TestC09", "quick": {"checks": 4000, "shards": 2}, "thorough": {"checks": 30000, "shards": 16}}],
+        "rule": "same domain as C08 with later messages biased to renewal shapes (IA_PD without IAPrefix, IAPrefix of wire length 0 and address ::, exact hints on one/several held prefixes, two or three new prefixes asked in one IA_PD, byte-identical retransmission). Oracle: held[c] = every prefix an earlier reply told client c it holds; an IA_PD with an exact hint on P in held[c] must be answered with P; a hint-less IA_PD with every P in held[c]; a retransmitted message whose IA_PDs are all renew-shaped is answered with nothing outside held[c]; valid lifetime never below what remained (2 s tolerance). Non-trivial: a renewal-shaped IA_PD was sent by a client that holds a prefix. Distinct: FNV-64 of the case JSON.",
+        "assumptions": ["'asks for exactly P' means same address bytes and same length as the client was told", "a length-only hint (::/L, L > 0) is not a hint-less request; nothing beyond C08 validity is asserted for it",
+                        "the retransmission clause is applied only to messages all of whose IA_PDs are hint-less or exact hints on held prefixes"],
+    },
 }
